@@ -141,21 +141,28 @@ func ruleReasonSet(rule string) RuleFn {
 // ruleRootCauseLoop (X-rootcause-loop).
 func ruleRootCauseLoop(rule string) RuleFn {
 	return func(c *an.Ctx) {
-		c.Rule(rule, "X-rootcause-loop: RootCause unwraps repeatedly: the errors.As(err, *Error) test is a loop condition (its true edge leads back to itself through err = errors.Unwrap(de)), not a single step")
+		c.Rule(rule, "X-rootcause-loop: RootCause finds the outermost dig.Error with errors.As ONCE and then walks down link by link (errors.Unwrap in a loop, continuing only while the next link itself is a dig.Error by type assertion): it unwraps repeatedly, and it stops at the first link that dig did not create. errors.As inside the loop would search through the user's error as well: a constructor error that wraps a dig error (a nested Invoke's failure passed on with %w) would be skipped and RootCause would return something the user's function never returned")
 		fn := c.Fn(rule, "dig.RootCause")
 		if fn == nil {
 			return
 		}
 		as := an.CallsNamed(fn, "errors.As")
 		uw := an.CallsNamed(fn, "errors.Unwrap")
-		good := len(as) == 1 && len(uw) == 1
-		if good {
-			a, u := as[0].(ssa.Instruction), uw[0].(ssa.Instruction)
-			h1, _ := an.PathTo(fn, a, an.IsInstr(u), nil)
-			h2, _ := an.PathTo(fn, u, an.IsInstr(a), nil)
-			good = h1 != nil && h2 != nil
+		// some unwrap is repeated (a loop may be primed by one unwrap in front of it)
+		loops := false
+		for _, u := range uw {
+			if an.InLoop(u.(ssa.Instruction)) {
+				loops = true
+			}
 		}
-		c.Check(good, rule, "RootCause keeps unwrapping while the error is a dig.Error", "for errors.As(err, &de) { err = errors.Unwrap(de) }", "RootCause unwraps at most once: for a failure two or more constructors deep it returns a dig wrapper instead of the user's error", nil, nil)
+		c.Check(loops, rule, "RootCause keeps unwrapping while the error is a dig.Error", "errors.Unwrap in a loop", "RootCause unwraps at most once: for a failure two or more constructors deep it returns a dig wrapper instead of the user's error", nil, nil)
+		asInLoop := false
+		for _, a := range as {
+			if an.InLoop(a.(ssa.Instruction)) {
+				asInLoop = true
+			}
+		}
+		c.Check(len(as) >= 1 && !asInLoop, rule, "RootCause stops at the first link that is not a dig.Error", "errors.As once, then type assertions link by link", "RootCause calls errors.As on every hop, which looks through links dig did not create: for a constructor that returns fmt.Errorf(\"...: %w\", errOfNestedInvoke) it returns the nested dig error (or its cause), not the error the constructor returned - RootCause/errors.As(dig.Error) then classify a user failure as a dig failure", nil, nil)
 	}
 }
 
@@ -642,6 +649,41 @@ func ruleTypedStore(rule string) RuleFn {
 				ok, where = true, "findResultKeys rejects flatten results of decorators"
 			}
 		}
+		// the stored slice may be of another slice type than the consumer's field: it is converted before it is handed out
+		if fn := c.Fn(rule, "(dig.paramGroupedSlice).getDecoratedValues"); fn != nil {
+			conv := false
+			for _, k := range methodCalls(fn, "(reflect.Value).Convert") {
+				if an.Norm(k.Common().Args[1]) == "p:pt.Type" {
+					conv = true
+				}
+			}
+			sameT := an.EdgesWhere(fn, func(f an.Fact) bool {
+				return strings.HasSuffix(f.S, ".Type() == p:pt.Type)") || strings.HasSuffix(f.S, "(p:pt.Type == "+"") // second form unused
+			})
+			good := conv
+			if conv {
+				var gates []ssa.Instruction
+				for _, k := range methodCalls(fn, "(reflect.Value).Convert") {
+					gates = append(gates, k)
+				}
+				for _, lk := range invokeNamed(fn, "getDecoratedValueGroup") {
+					okE := an.BoolEdges(fn, func(v ssa.Value) bool {
+						ex, isEx := v.(*ssa.Extract)
+						return isEx && ex.Tuple == ssa.Value(lk) && ex.Index == 1
+					}, true)
+					for _, e := range okE {
+						first := e.From.Succs[e.Succ].Instrs[0]
+						if hit, _ := an.PathTo(fn, first, successReturnTrue, an.NewGates().AddInstr(gates...).AddEdges(sameT...)); hit != nil {
+							good = false
+						}
+						if successReturnTrue(first) {
+							good = false
+						}
+					}
+				}
+			}
+			c.Check(good, rule, "a decorated group is converted to the consumer's slice type before it is handed out", "items.Convert(pt.Type) unless the types are identical", "the decorated slice is handed to the consumer as stored: when the decorator declared another slice type of the same elements, reflect.Value.Set panics inside Invoke (or, keyed by slice type, the decoration is silently lost)", nil, nil)
+		}
 		c.Check(ok, rule, "a decorated group is stored under the type of the stored value", where, "a decorator's flatten group result is accepted and its whole value stored under the element type's group key: Decorate(func(..) struct{dig.Out; V [][]int `group:\"x,flatten\"`}) succeeds and the next Invoke consuming []int `group:\"x\"` panics in reflect.Value.Set", nil, nil)
 	}
 }
@@ -709,5 +751,153 @@ func ruleDotLeaves(rule string) RuleFn {
 			c.Check(ok, rule, "(dig.paramSingle).DotParam: entry reports Optional", "p:ps.Optional", "the optional flag is not reported", nil, nil)
 		}
 		_ = n
+	}
+}
+
+// ruleAsAll (L-as-all): no listed interface is silently dropped.
+func ruleAsAll(rule string) RuleFn {
+	return func(c *an.Ctx) {
+		c.Rule(rule, "L-as-all: in the loops that turn the dig.As list into the keys of a result node (newResultSingle, grouped branch of newResult) every iteration either returns an error or appends the interface to the collected list - there is no way round the append. An interface that was listed is a key the value is provided under; dropping one (for instance the result's own type when it is listed next to another interface) makes the value unavailable under a type the caller asked for")
+		n := 0
+		for _, nm := range []string{"dig.newResultSingle", "dig.newResult"} {
+			fn := c.Fn(rule, nm)
+			if fn == nil {
+				continue
+			}
+			for _, l := range rangeLoops(fn) {
+				if l.over != "p:opts.As" {
+					continue
+				}
+				n++
+				var apps []ssa.Instruction
+				for b := range l.body {
+					for _, in := range b.Instrs {
+						if k, ok := in.(*ssa.Call); ok {
+							if bi, isB := k.Common().Value.(*ssa.Builtin); isB && bi.Name() == "append" {
+								apps = append(apps, in)
+							}
+						}
+					}
+				}
+				cons := nm + ": every listed As interface is collected"
+				if len(apps) == 0 {
+					c.Bad(rule, cons, "the loop over opts.As appends nothing", l.header.Instrs[0], nil)
+					continue
+				}
+				body := l.header.Succs[0].Instrs[0]
+				hit, path := an.PathTo(fn, body, func(i ssa.Instruction) bool { return i.Block() == l.header }, an.NewGates().AddInstr(apps...))
+				c.Check(hit == nil, rule, cons, "each iteration: error return or append", "an iteration can go on to the next interface without having collected the current one: a listed interface (e.g. the result's own type, when another interface is listed too) is dropped and the value is not provided under it", apps[0], an.BlockPath(c.P, path))
+			}
+		}
+		c.Floor(rule, "loops over opts.As", n, 2)
+	}
+}
+
+// successReturnTrue: a return whose last result is the constant true (found).
+func successReturnTrue(i ssa.Instruction) bool {
+	r, ok := i.(*ssa.Return)
+	if !ok || len(r.Results) == 0 {
+		return false
+	}
+	k, isC := r.Results[len(r.Results)-1].(*ssa.Const)
+	return isC && k.Value != nil && k.Value.String() == "true"
+}
+
+// ruleArrayOf (E-REFL, ArrayOf): reflect.ArrayOf panics when the array would
+// not fit the address space; dig calls it on types derived from user types.
+func ruleArrayOf(rule string) RuleFn {
+	return func(c *an.Ctx) {
+		c.Rule(rule, "E-REFL (ArrayOf): reflect.ArrayOf(n, elem) panics when n*elem.Size() overflows the address space. dig builds array types only to SUGGEST near-misses in a missing-type error, from a user-controlled array type ([N]T -> [N]*T and back), so every such call must be dominated by the true edge of a fit test on the same n and elem - a call of a predicate whose body is exactly reflect's own precondition (elem.Size() == 0 || uintptr(n) <= ^uintptr(0)/elem.Size()). Otherwise a legal parameter type such as [1<<61]struct{} turns 'missing type' into a panic inside Invoke")
+		n := 0
+		for _, fn := range c.P.Funcs {
+			for _, k := range methodCalls(fn, "reflect.ArrayOf") {
+				n++
+				a := k.Common().Args
+				cons := fmt.Sprintf("reflect.ArrayOf(%s, %s) in %s fits the address space", an.Norm(a[0]), an.Norm(a[1]), an.ShortName(fn))
+				var gates []an.Edge
+				for _, g := range methodCalls(fn, "dig.arrayFits") {
+					ga := g.Common().Args
+					if an.Norm(ga[0]) == an.Norm(a[0]) && an.Norm(ga[1]) == an.Norm(a[1]) {
+						gg := g
+						gates = append(gates, an.BoolEdges(fn, func(v ssa.Value) bool { return v == ssa.Value(gg) }, true)...)
+					}
+				}
+				okPred := false
+				if p := c.P.Func("dig.arrayFits"); p != nil {
+					c.See(p)
+					an.Instrs(p, func(in ssa.Instruction) {
+						if b, ok := in.(*ssa.BinOp); ok && (b.Op == token.LEQ || b.Op == token.GTR) {
+							s := an.Norm(b)
+							if strings.Contains(s, ".Size()") && strings.Contains(s, "/") {
+								okPred = true
+							}
+						}
+					})
+				}
+				hit, path := an.PathTo(fn, nil, an.IsInstr(k), an.NewGates().AddEdges(gates...))
+				c.Check(okPred && len(gates) > 0 && hit == nil, rule, cons, "guarded by arrayFits(n, elem)", "the array type is built without checking that it fits the address space: Invoke(func([1<<61]struct{}){}) panics in reflect.ArrayOf while dig composes its 'missing type' error", k, an.BlockPath(c.P, path))
+			}
+		}
+		c.Floor(rule, "reflect.ArrayOf call sites", n, 1)
+	}
+}
+
+// ruleCtorReentry (G-ctor-reentry): recursion through constructors is bounded.
+func ruleCtorReentry(rule string) RuleFn {
+	return func(c *an.Ctx) {
+		c.Rule(rule, "G-ctor-reentry: acyclicity is verified per scope, but a constructor is built in ITS OWN scope's view (OrigScope), and the views of two scopes contain different edges: a cycle can run through constructors exported from two sibling scopes (N1 -> P1 -> E2 in one, E2 -> P2 -> N1 in the other) without being a cycle of any single view. The recursion constructorNode.Call -> BuildList -> ... -> Call is therefore bounded only by an in-progress marker of the constructor itself: Call stores constructorNode.building = true before it builds its arguments, restores it in a defer, and a Call that finds the marker set - with no decorator having gone on the stack since (the one legitimate re-entry: a decorator of a dependency that consumes this constructor's result) - returns an error wrapping errCycleDetected instead of recursing. A constructor that asks the container for its own result while it runs is stopped by the same test")
+		fn := c.Fn(rule, "(*dig.constructorNode).Call")
+		if fn == nil {
+			return
+		}
+		cons := "constructorNode.Call carries an in-progress marker that turns re-entry into a cycle error"
+		var mark []ssa.Instruction
+		for _, st := range an.StoresToField(fn, "constructorNode", "building") {
+			if an.Norm(st.Val) == "true" {
+				mark = append(mark, st)
+			}
+		}
+		builds := an.CallsNamed(fn, "(dig.paramList).BuildList")
+		if len(mark) == 0 || len(builds) == 0 {
+			c.BadAt(rule, cons, "constructorNode.Call sets no in-progress marker: with per-scope cycle detection only, constructors exported from two sibling scopes can form a cycle that no single scope's graph contains (s1: N1(P1) exported, P1(E2); s2: E2(P2) exported, P2(N1)); every Provide is accepted and the first Invoke recurses until the process dies with a stack overflow, which RecoverFromPanics cannot catch", c.P.Pos(fn.Pos()), nil)
+			return
+		}
+		good := true
+		why := ""
+		for _, b := range builds {
+			if hit, _ := an.PathTo(fn, nil, an.IsInstr(b), an.NewGates().AddInstr(mark...)); hit != nil {
+				good, why = false, "arguments can be built before the marker is set"
+			}
+		}
+		// entry test: the true edge of n.building (possibly conjoined with the decorator-epoch test) leads only to error exits
+		pos := an.BoolEdges(fn, func(v ssa.Value) bool { return an.Norm(v) == "p:n.building" }, true)
+		if len(pos) == 0 {
+			good, why = false, "the marker is never tested"
+		}
+		okErr := false
+		for _, k := range methodCalls(fn, "dig.newErrInvalidInput") {
+			if strings.Contains(an.Norm(k), "complit") || true {
+				// the error wraps an errCycleDetected literal
+				an.Instrs(fn, func(in ssa.Instruction) {
+					if al, ok := in.(*ssa.Alloc); ok && isConstruction(al) && an.IsDigNamed(al.Type(), "errCycleDetected") {
+						okErr = true
+					}
+				})
+			}
+		}
+		if !okErr && good {
+			good, why = false, "re-entry is not reported as an error that IsCycleDetected recognises"
+		}
+		// restored on exit: a deferred closure stores into n.building
+		restored := false
+		for _, cl := range fn.AnonFuncs {
+			if len(an.StoresToField(cl, "constructorNode", "building")) > 0 {
+				restored = true
+			}
+		}
+		if !restored && good {
+			good, why = false, "the marker is not restored by a deferred function (a failed or panicking build would leave the constructor unusable)"
+		}
+		c.Check(good, rule, cons, "building = true before BuildList; tested at entry; restored by defer", why, mark[0], nil)
 	}
 }
